@@ -1,8 +1,9 @@
 import TIV.Common.Wire
 import TIV.Common.Term
 import TIV.Common.TokBytes
+import TIV.Common.Lex
 /-!
-# Wire format of tokens and terminal states; ops `term.run`
+# Wire format of tokens and terminal states; ops `term.run`, `tok.str`, `lex.run`, `term.runbytes`, `term.runbytes.n`
 A token is one word: gB gU gL gC<code> | n | m | f<r>,<g>,<b> | b<r>,<g>,<b> | A<n> B<n> C<n> D<n> X<n>
 | lf | cr | hc | sc | sb | se | K<cols>,<rows>,<z> | kd | ka | kz<z> | ke | I<cols>,<rows>,<0|1> | st
 -/
@@ -87,8 +88,54 @@ def fmtState (t0 t : Term) : String :=
   fmtList (fun p : Placement => s!"{fmtBool p.kittyProto},{p.row},{p.col},{p.cols},{p.rows},{p.z}") t.imgs ++ " " ++
   fmtList (fun w : Write => s!"{w.1},{w.2.1},{fmtCell w.2.2}") newWrites
 
+/-- value of a lower-case hex digit given as a byte -/
+def hexNib (b : UInt8) : Option UInt8 :=
+  if 48 ≤ b && b ≤ 57 then some (b - 48) else if 97 ≤ b && b ≤ 102 then some (b - 87) else none
+
+/-- `Wire.hexDecode` without the intermediate lists (render outputs are megabytes): the bytes of a
+    lower-case hex word (`-` = empty), straight into a `ByteArray` -/
+def hexBytes (w : String) : Option ByteArray :=
+  if w == "-" then some ByteArray.empty
+  else
+    let src := w.toUTF8
+    if src.size % 2 != 0 then none
+    else Id.run do
+      let mut out := ByteArray.emptyWithCapacity (src.size / 2)
+      for i in [0:src.size / 2] do
+        match hexNib (src.get! (2 * i)), hexNib (src.get! (2 * i + 1)) with
+        | some x, some y => out := out.push (x * 16 + y)
+        | _, _ => return none
+      return some out
+
+/-- the real output as the harness sends it: lower-case hex of its UTF-8 encoding -/
+def pBytes : P (List Char) := do
+  let w ← word
+  match (hexBytes w).bind String.fromUTF8? with
+  | some s => pure s.toList
+  | none => failure
+
 def handler : Handler := fun op args =>
   match op with
+  | "lex.run" => run (do
+      -- the Lean lexer (`TIV.Lex.lex`, proved inverse to `toksStr`) on real output bytes;
+      -- answer in exactly the format of `harness/common/tokenizer.py`'s `wire()`
+      let cs ← pBytes
+      match Lex.lex cs with
+      | some ts => pure ("ok " ++ fmtList fmtTok ts)
+      | none => pure "err lex") args
+  | "term.runbytes" => run (do
+      -- `term.run` on what the Lean lexer reads from the bytes
+      let t ← pTerm; let cs ← pBytes
+      match Lex.lex cs with
+      | some ts => pure ("ok " ++ fmtState t (t.run ts))
+      | none => pure "err lex") args
+  | "term.runbytes.n" => run (do
+      -- one reading of the bytes, several terminals: `<hex> <n> (W H kind row col top lm)×n` →
+      -- `ok <n tok…> | <state of term.run> | …` (the wire tokens first, then one state per terminal)
+      let cs ← pBytes; let ts ← listOf pTerm
+      match Lex.lex cs with
+      | some toks => pure ("ok " ++ String.intercalate " | " (fmtList fmtTok toks :: ts.map fun t => fmtState t (t.run toks)))
+      | none => pure "err lex") args
   | "term.run" => run (do
       let t ← pTerm; let ts ← listOf pTok
       pure ("ok " ++ fmtState t (t.run ts))) args
